@@ -490,6 +490,25 @@ pub fn plan(kind: DocKind, budget: usize, edit_budget: usize, relaxed_budget: us
             relaxed.insert("\"d\" extend type T @ d".split(' ').collect());
         }
     }
+    // deep constant and variable values (lists in lists, objects in lists in objects): their smallest
+    // sentences lie beyond the token budgets; they are sentences of the June 2018 grammar and get every
+    // family including the single-token edits
+    let deep: Vec<Sentence> = match kind {
+        DocKind::Executable => vec![
+            "query ( $ v : [ [ T ] ] = [ [ 1 ] , [ ] ] ) { a ( k : [ [ 1 ] , { a : [ $ v ] } ] ) }",
+            "{ a ( k : { a : { b : [ { c : 1 } ] } } ) }",
+            "{ a @ d ( k : [ [ \"s\" ] , [ true , null ] ] ) }",
+        ],
+        DocKind::TypeSystem => vec![
+            "scalar T @ d ( k : [ [ 1 ] , [ ] , [ { a : [ 2 ] } ] ] )",
+            "input T { a : [ [ T ] ] = [ [ 1 , 2 ] , [ 3 ] ] }",
+            "type T { a ( b : [ T ] = [ { k : [ 1 ] } ] ) : T }",
+            "directive @ d ( a : [ [ T ! ] ! ] ! = [ [ E ] ] ) on QUERY",
+        ],
+    }
+    .into_iter()
+    .map(|t| t.split(' ').collect())
+    .collect();
     let mut prefixes: BTreeSet<Sentence> = BTreeSet::new();
     for s in strict.iter() {
         for i in 0..=s.len() {
@@ -504,6 +523,9 @@ pub fn plan(kind: DocKind, budget: usize, edit_budget: usize, relaxed_budget: us
     }
     for s in relaxed.iter() {
         items.push(Item::Sentence(s.clone(), false));
+    }
+    for s in deep.iter() {
+        items.push(Item::Sentence(s.clone(), true));
     }
     let n_prefixes = prefixes.len();
     for p in prefixes {
